@@ -1,5 +1,5 @@
 \* exhaustive, quick: the repaired design satisfies the contract
-\* (2 tenants of which one LIKE-matches the other, 2 prefix-related tasks, collections 1/12 + wildcard 0, faults, depth 2)
+\* (2 tenants of which one LIKE-matches the other, 2 prefix-related tasks, collections 1/12 + reserved ids -10/-1 + wildcard 0, faults, depth 2)
 SPECIFICATION Spec
 CHECK_DEADLOCK FALSE
 VIEW view
@@ -10,13 +10,15 @@ CONSTANTS
   Colls = {1, 12}
   Chans = {"ch", "ch1"}
   MsgIds = {"m"}
+  Reserved = {"rpc", "tmp"}
+  PosKeyPositive = FALSE
   ZeroColl = TRUE
   Backend = "mysql"
   DelNoRoot = FALSE
   LikeRaw = FALSE
   MsgAllRaw = FALSE
   EtcdMsgShared = FALSE
-  OpsOn = {"putTask", "putPos", "getTask", "getAll", "getPos", "setState", "updPos", "dropPos", "delPos", "delTask", "msgPut", "msgAll", "msgGet", "msgDel"}
+  OpsOn = {"putTask", "putPos", "getTask", "getAll", "getPos", "getPosC", "setState", "updPos", "dropPos", "delPos", "delTask", "msgPut", "msgAll", "msgGet", "msgDel"}
   FaultsOn = TRUE
   Rand = FALSE
   SeedOps = 0
